@@ -5,6 +5,7 @@ numbers and the unit of the corresponding copying call.
 Every operand is a VIEW (offset slice / strided / reversed / transposed / 0-d element) of a
 larger root buffer; the whole root buffer is snapshotted byte for byte together with dtype,
 shape, strides, unit signature and name of every operand (lib_c18_ops.E_nonmut / E_inplace)."""
+import itertools
 import os
 import random
 import sys
@@ -621,7 +622,7 @@ def run_setitem():
 
 # ============================================================================ Unit arithmetic
 UNITS = ["cm", "m", "s", "g", "degC", "K", "dimensionless", "cm**2/s", "rad", "m**2/cm", "g*cm/s**2", "statC", "T", "dB",
-         "km/s/Mpc", "erg/K", "1/s", "sqrt(g)*cm**(3/2)/s", "lat", "percent", "N*m", "mdegC", "delta_degF"]
+         "km/s/Mpc", "erg/K", "1/s", "sqrt(g)*cm**(3/2)/s", "lat", "percent", "N*m", "mdegC", "delta_degF", "100*m", "2.54*cm/s", "1000*g/cm**3"]
 UNIT_OPS1 = ["u**2", "u**0.5", "u**-1", "u**1", "u**0", "u*3.0", "3.0*u", "u/3.0", "3.0/u", "u.get_base_equivalent()",
              "u.get_base_equivalent('cgs')", "u.get_base_equivalent('galactic')", "u.get_cgs_equivalent()", "u.get_mks_equivalent()",
              "u.as_coeff_unit()", "u.copy()", "u.copy(deep=True)", "__import__('copy').deepcopy(u)", "__import__('copy').copy(u)",
@@ -718,6 +719,57 @@ def run_catalogue():
     R.notes.append("array-function catalogue: %d templates of %d functions evaluated on view operands" % (len(cat.CASES), len(nfun)))
 
 
+# ============================================================================ handlers with operands in DIFFERENT commensurable units
+MIXED_NONMUT = [
+    "np.concatenate((a, b))", "np.append(a, b)", "np.hstack((a, b))", "np.vstack((a, b))", "np.stack((a, b))", "np.column_stack((a, b))",
+    "np.where(a > b, a, b)", "np.isclose(a, b)", "np.allclose(a, b)", "np.array_equal(a, b)", "np.array_equiv(a, b)", "np.searchsorted(np.sort(a), b)",
+    "np.histogram(a, bins=np.sort(b))", "np.histogram2d(a, b)", "np.interp(a, np.sort(b), b)", "np.clip(a, b.min(), b.max())", "np.linspace(a[0], b[0], 4)",
+    "np.logspace(a[0], b[0], 3)", "np.geomspace(a[0], b[0], 3)", "np.cross(a[:3], b[:3])", "np.dot(a, b)", "np.vdot(a, b)", "np.inner(a, b)", "np.outer(a, b)",
+    "np.kron(a, b)", "np.union1d(a, b)", "np.intersect1d(a, b)", "np.setdiff1d(a, b)", "np.setxor1d(a, b)", "np.isin(a, b)", "np.insert(a, 1, b[0])",
+    "np.select([a > b], [a], b[0])", "np.choose([0, 1, 0, 1, 0], (a, b))", "np.block([a, b])", "np.tensordot(a, b, 0)", "np.einsum('i,i', a, b)",
+    "np.convolve(a, b)", "np.correlate(a, b)", "np.digitize(a, np.sort(b))", "np.trapezoid(a, b)" if hasattr(np, "trapezoid") else "np.trapz(a, b)",
+    "np.fmax(a, b)", "np.ediff1d(a, to_end=b[0])", "np.diff(a, prepend=b[0])", "np.pad(a, 1, constant_values=b[0])", "np.full(3, b[0]) + a[0]",
+    "np.full_like(a, b[0])", "np.meshgrid(a, b)", "np.broadcast_arrays(a, b)", "np.linalg.lstsq(np.outer(a, a) + np.eye(5) * a[0], b, rcond=None)",
+    "np.polyfit(a, b, 1)", "np.histogramdd((a, b))", "np.lexsort((a, b))", "np.maximum.reduce([a, b])", "unyt.unyt_array([a[0], b[0]])",
+    "unyt.allclose_units(a, b)", "unyt.testing.assert_allclose_units(a, a.to(b.units))", "unyt.uconcatenate((a, b))", "unyt.uhstack((a, b))",
+    "unyt.ustack((a, b))", "unyt.uvstack((a, b))", "unyt.uintersect1d(a, b)", "unyt.uunion1d(a, b)", "unyt.ucross(a[:3], b[:3])", "unyt.udot(a, b)",
+    "unyt.unorm(a)", "a.dot(b)", "a.searchsorted(b)", "a.clip(b.min(), b.max())", "sorted([a[0], b[0]])", "max(a[0], b[0])", "list(a) + list(b)",
+]
+MIXED_INPLACE = [
+    ("copyto", "np.copyto(a, b)", "r = b.copy()"),
+    ("copyto-where", "np.copyto(a, b, where=m)", "r = a.copy(); r[m] = b.to(a.units)[m]"),
+    ("put", "np.put(a, [0, 2], b[:2])", "r = a.copy(); r[[0, 2]] = b[:2].to(a.units)"),
+    ("putmask", "np.putmask(a, m, b)", "r = a.copy(); r[m] = b.to(a.units)[m]"),
+    ("place", "np.place(a, m, b)", "r = a.copy(); r[m] = b.to(a.units)[:int(m.sum())]"),
+    ("fill_diagonal", "np.fill_diagonal(a2, b[0])", None),
+    ("setitem-slice", "a[1:3] = b[1:3]", "r = a.copy(); r.d[1:3] = b[1:3].to(a.units).d"),
+    ("clip-out", "np.clip(a, b.min(), b.max(), out=a)", "r = np.clip(a, b.min(), b.max())"),
+    ("take-out", "np.take(b, [0, 1, 2, 3, 4], out=a)", "r = np.take(b, [0, 1, 2, 3, 4])"),
+    ("cumsum-out", "np.cumsum(b, out=a)", "r = np.cumsum(b)"),
+    ("concatenate-out", "np.concatenate((a[:2], b[:3]), out=a)", "r = np.concatenate((a[:2], b[:3]))"),
+    ("sort", "a.sort()", "r = np.sort(a)"),
+    ("itemset", "a[0] = b[0]; a[-1] = b[-1]", "r = a.copy(); r.d[0] = b[0].to(a.units).d; r.d[-1] = b[-1].to(a.units).d"),
+]
+
+
+def run_mixed_handlers():
+    for ua, ub in (("cm", "m"), ("m", "km"), ("degC", "degF"), ("K", "degC"), ("cm", "s"), ("g/cm**3", "kg/m**3"), ("degree", "rad"), ("statC", "C")):
+        for dt in DTS:
+            for ka, kb in (("strided", "rev"), ("slice", "strided")) if not R.thorough else itertools.product(["strided", "slice", "rev", "T"], repeat=2):
+                rng = rng_for("mixed", ua, ub, dt, ka, kb)
+                S = {"a": spec(dt, ka, L.draw_values(rng, dt, (5,), positive=True), ua), "b": spec(dt, kb, L.draw_values(rng, dt, (5,), positive=True), ub)}
+                pid = "%s+%s" % (ua, ub)
+                for code in MIXED_NONMUT:
+                    nonmut("handler-mixed-units", (code.split("(")[0], pid), S, "r = " + code)
+                for name, code, cc in MIXED_INPLACE:
+                    pre = "m = np.array([True, False, True, False, True]); a2 = a[:4].reshape(2, 2)"
+                    if cc is None:
+                        nonmut_target = [("a", None, None)]
+                        inplace("handler-mixed-units-inplace", (name, pid), S, code, nonmut_target, "r = 0", pre=pre)
+                    else:
+                        inplace("handler-mixed-units-inplace", (name, pid), S, code, [("a", "r", "physical")], cc, pre=pre)
+
+
 # ============================================================================ exception hierarchy
 def run_exception_classes():
     for n in dir(UE):
@@ -734,7 +786,7 @@ def run_exception_classes():
 
 
 SECTIONS = [("exceptions", run_exception_classes), ("conversions", run_conversions), ("operators", run_operators),
-            ("unary", run_unary_ufuncs), ("binary", run_binary_ufuncs), ("setitem", run_setitem), ("units", run_units),
+            ("unary", run_unary_ufuncs), ("binary", run_binary_ufuncs), ("setitem", run_setitem), ("mixed", run_mixed_handlers), ("units", run_units),
             ("catalogue", run_catalogue)]
 only = os.environ.get("C18_ONLY")
 for sname, fn in SECTIONS:
